@@ -381,26 +381,66 @@ theorem ceilLog_unique (m b : Nat) (hm : 1 ≤ m) (hb : 1 ≤ b) (h1 : 2 ^ (b - 
   · have : 2 ^ (m.log2 + 1) ≤ 2 ^ k := Nat.pow_le_pow_right (by omega) h
     omega
 
-/-! ## the run-time (reflection-loaded) encoder: whole bytes per piece -/
+/-! ## the run-time (reflection-loaded) encoder
 
-def dynEncList (e : Val → List Nat) : Val → List Nat
+Since the repair recorded in known_findings.json (`dynamic-encode-not-bit-packed`, fixed) every
+`Encode*` member of `DynamicSchema` writes into one `Buffer` passed by reference: the same
+composition as the generated structs, every scalar through `PushWord` on a 64-bit carrier. -/
+
+def dynEncList (e : Val → Bits) : Val → Bits
   | .cons v vs => e v ++ dynEncList e vs
   | _ => []
 
-/-- `DynamicSchema::_Encode`: every field, element, length prefix and flag is encoded into a
+/-- `DynamicSchema::_Encode` into the shared buffer -/
+def dynEnc : Ty → Val → Bits
+  | .uint n, .int i => pushBits i n
+  | .sint n, .int i => pushBits i n
+  | .f32, .int i => pushBits i 32
+  | .f64, .int i => pushBits i 64
+  | .enum b, .int i => pushBits i b
+  | .str, .str cs => pushBits cs.length 32 ++ (cs.map fun (c : Nat) => pushBits (c : Int) 8).flatten
+  | .arr t _, v => dynEncList (dynEnc t) v
+  | .dyn t, v => pushBits (vlen v) 32 ++ dynEncList (dynEnc t) v
+  | .opt _, .none => pushBits 0 8
+  | .opt t, .some v => pushBits 1 8 ++ dynEnc t v
+  | .field _ _ t rest, .cons v vs => dynEnc t v ++ dynEnc rest vs
+  | _, _ => []
+
+theorem dynEncList_eq_cpp (t : Ty) (ih : ∀ v, dynEnc t v = cppEnc t v) (v : Val) :
+    dynEncList (dynEnc t) v = cppEncList (cppEnc t) v := by
+  induction v with
+  | cons x xs _ ihxs => simp only [dynEncList, cppEncList, ih x, ihxs]
+  | _ => rfl
+
+/-- **the run-time encoder is the generated encoder**, for every type and every value -/
+theorem dynEnc_eq_cppEnc (t : Ty) : ∀ v, dynEnc t v = cppEnc t v := by
+  induction t with
+  | arr t n ih => intro v; simp only [dynEnc, cppEnc]; exact dynEncList_eq_cpp t ih v
+  | dyn t ih => intro v; simp only [dynEnc, cppEnc, dynEncList_eq_cpp t ih v]
+  | opt t ih => intro v; cases v <;> simp only [dynEnc, cppEnc, ih]
+  | field nm id t r iht ihr => intro v; cases v <;> simp only [dynEnc, cppEnc, iht, ihr]
+  | _ => intro v; cases v <;> rfl
+
+/-! ### the encoder before the repair: whole bytes per piece (kept as the record of the defect) -/
+
+def oldDynEncList (e : Val → List Nat) : Val → List Nat
+  | .cons v vs => e v ++ oldDynEncList e vs
+  | _ => []
+
+/-- `DynamicSchema::_Encode` before the repair: every field, element, length prefix and flag is encoded into a
 fresh `Buffer` whose bytes are appended -/
-def dynEnc : Ty → Val → List Nat
+def oldDynEnc : Ty → Val → List Nat
   | .uint n, .int i => pack (natBits n i.toNat)
   | .sint n, .int i => pack (natBits n (toTwos n i))
   | .f32, .int i => pack (natBits 32 i.toNat)
   | .f64, .int i => pack (natBits 64 i.toNat)
   | .enum b, .int i => pack (natBits b i.toNat)
   | .str, .str cs => pack (natBits 32 cs.length ++ encChars cs)
-  | .arr t _, v => dynEncList (dynEnc t) v
-  | .dyn t, v => pack (natBits 32 (vlen v)) ++ dynEncList (dynEnc t) v
+  | .arr t _, v => oldDynEncList (oldDynEnc t) v
+  | .dyn t, v => pack (natBits 32 (vlen v)) ++ oldDynEncList (oldDynEnc t) v
   | .opt _, .none => pack (natBits 8 0)
-  | .opt t, .some v => pack (natBits 8 1) ++ dynEnc t v
-  | .field _ _ t rest, .cons v vs => dynEnc t v ++ dynEnc rest vs
+  | .opt t, .some v => pack (natBits 8 1) ++ oldDynEnc t v
+  | .field _ _ t rest, .cons v vs => oldDynEnc t v ++ oldDynEnc rest vs
   | _, _ => []
 
 /-- every scalar of the type occupies a whole number of bytes -/
@@ -440,61 +480,61 @@ theorem pack_append_aligned (a b : Bits) (h : a.length % 8 = 0) : pack (a ++ b) 
 theorem encChars_aligned (cs : List Nat) : (encChars cs).length % 8 = 0 := by
   rw [encChars_length]; omega
 
-theorem dynEncList_eq (t : Ty) (ih : ∀ v, wf t v = true → dynEnc t v = pack (enc t v) ∧ (enc t v).length % 8 = 0)
+theorem oldDynEncList_eq (t : Ty) (ih : ∀ v, wf t v = true → oldDynEnc t v = pack (enc t v) ∧ (enc t v).length % 8 = 0)
     (n : Nat) (v : Val) (h : wfList (wf t) n v = true) :
-    dynEncList (dynEnc t) v = pack (encList (enc t) v) ∧ (encList (enc t) v).length % 8 = 0 := by
+    oldDynEncList (oldDynEnc t) v = pack (encList (enc t) v) ∧ (encList (enc t) v).length % 8 = 0 := by
   induction n generalizing v with
-  | zero => cases v <;> simp_all [wfList, dynEncList, encList, pack, packAux]
+  | zero => cases v <;> simp_all [wfList, oldDynEncList, encList, pack, packAux]
   | succ n ihn =>
     cases v with
     | cons x xs =>
       simp only [wfList, Bool.and_eq_true] at h
       obtain ⟨h1, h2⟩ := ih x h.1
       obtain ⟨h3, h4⟩ := ihn xs h.2
-      simp only [dynEncList, encList, List.length_append]
+      simp only [oldDynEncList, encList, List.length_append]
       exact ⟨by rw [pack_append_aligned _ _ h2, h1, h3], by omega⟩
     | _ => simp_all [wfList]
 
-/-- **C13, encode, partial**: on byte-granular types the run-time encoder produces exactly
+/-- before the repair: on byte-granular types the run-time encoder produced exactly
 the canonical (= static) bytes, and every encoding is a whole number of bytes -/
-theorem dynEnc_eq (t : Ty) : ∀ (v : Val), ByteGranular t = true → wf t v = true →
-    dynEnc t v = pack (enc t v) ∧ (enc t v).length % 8 = 0 := by
+theorem oldDynEnc_eq (t : Ty) : ∀ (v : Val), ByteGranular t = true → wf t v = true →
+    oldDynEnc t v = pack (enc t v) ∧ (enc t v).length % 8 = 0 := by
   induction t with
   | uint n =>
-    intro v hg hv; cases v <;> simp_all [wf, ByteGranular, dynEnc, enc]
+    intro v hg hv; cases v <;> simp_all [wf, ByteGranular, oldDynEnc, enc]
   | sint n =>
-    intro v hg hv; cases v <;> simp_all [wf, ByteGranular, dynEnc, enc]
-  | f32 => intro v hg hv; cases v <;> simp_all [wf, dynEnc, enc]
-  | f64 => intro v hg hv; cases v <;> simp_all [wf, dynEnc, enc]
-  | enum b => intro v hg hv; cases v <;> simp_all [wf, ByteGranular, dynEnc, enc]
+    intro v hg hv; cases v <;> simp_all [wf, ByteGranular, oldDynEnc, enc]
+  | f32 => intro v hg hv; cases v <;> simp_all [wf, oldDynEnc, enc]
+  | f64 => intro v hg hv; cases v <;> simp_all [wf, oldDynEnc, enc]
+  | enum b => intro v hg hv; cases v <;> simp_all [wf, ByteGranular, oldDynEnc, enc]
   | str =>
     intro v hg hv
-    cases v <;> simp_all [wf, dynEnc, enc]
+    cases v <;> simp_all [wf, oldDynEnc, enc]
     rename_i cs
     have := encChars_aligned cs; omega
-  | unit => intro v hg hv; cases v <;> simp_all [wf, dynEnc, enc, pack, packAux]
+  | unit => intro v hg hv; cases v <;> simp_all [wf, oldDynEnc, enc, pack, packAux]
   | arr t n ih =>
     intro v hg hv
     simp only [ByteGranular] at hg
     simp only [wf] at hv
-    simp only [dynEnc, enc]
-    exact dynEncList_eq t (fun v hv => ih v hg hv) n v hv
+    simp only [oldDynEnc, enc]
+    exact oldDynEncList_eq t (fun v hv => ih v hg hv) n v hv
   | dyn t ih =>
     intro v hg hv
     simp only [ByteGranular] at hg
     simp only [wf, Bool.and_eq_true, decide_eq_true_eq] at hv
-    simp only [dynEnc, enc, List.length_append, natBits_length]
-    obtain ⟨h1, h2⟩ := dynEncList_eq t (fun v hv => ih v hg hv) _ v hv.2
+    simp only [oldDynEnc, enc, List.length_append, natBits_length]
+    obtain ⟨h1, h2⟩ := oldDynEncList_eq t (fun v hv => ih v hg hv) _ v hv.2
     exact ⟨by rw [pack_append_aligned _ _ (by simp), h1], by omega⟩
   | opt t ih =>
     intro v hg hv
     simp only [ByteGranular] at hg
     cases v with
-    | none => simp [dynEnc, enc]
+    | none => simp [oldDynEnc, enc]
     | some x =>
       simp only [wf] at hv
       obtain ⟨h1, h2⟩ := ih x hg hv
-      simp only [dynEnc, enc, List.length_append, natBits_length]
+      simp only [oldDynEnc, enc, List.length_append, natBits_length]
       exact ⟨by rw [pack_append_aligned _ _ (by simp), h1], by omega⟩
     | _ => simp_all [wf]
   | field nm id t r iht ihr =>
@@ -505,7 +545,7 @@ theorem dynEnc_eq (t : Ty) : ∀ (v : Val), ByteGranular t = true → wf t v = t
       simp only [wf, Bool.and_eq_true] at hv
       obtain ⟨h1, h2⟩ := iht x hg.1 hv.1
       obtain ⟨h3, h4⟩ := ihr xs hg.2 hv.2
-      simp only [dynEnc, enc, List.length_append]
+      simp only [oldDynEnc, enc, List.length_append]
       exact ⟨by rw [pack_append_aligned _ _ h2, h1, h3], by omega⟩
     | _ => simp_all [wf]
 
